@@ -28,6 +28,7 @@ FIXED = [
  (["C17", "C06"], "86fb009", "error rendering applied offsets of the original query to the trimmed query: leading blanks shifted the caret, many blanks / long queries panicked with slice bounds out of range", "'   select * where val = 1' rendered after BindQuery"),
  (["C09"], "39d160b", "GROUP BY key was the concatenation of rendered values: ('a','bc') and ('ab','c') merged into one group", "select split(key,'|')[0] as g0, split(key,'|')[1] as g1, count(1) where true group by g0, g1"),
  (["C14"], "5a16734", "unknown functions and wrong argument counts were found only at execution, after Cursor/Seek (or not at all on an empty store)", "select nosuch(value) where key ^= 'k'"),
+ (["C06"], "f27f612", "quantile(x, 0 - 25): a negative percentile passed the range check and panicked (index out of range) when the aggregate completed", "select quantile(int(value), 0 - 25) where true"),
 ]
 KNOWN = []
 def main():
